@@ -101,6 +101,23 @@ add("C16", "E1-explore",
     "Every distinct state of a BFS over the real objects in worlds {scale None / given, single-key / per-axis position, with / without segmentation} is rebuilt and each read-only operation (export_to_csv full / subset / display names / with segmentation, export_to_geff full / subset, save_tracks, and a bundle of every query incl. get_track_neighbors and has_track_id_at_time for every id and time) is executed separately; the full snapshot (graph, raw attributes, array bytes and identity, scale value and type, registry, lookups as sets, counters, both history stacks) must be identical before and after.",
     "Bounded state sets (depth 0-1) plus a 65-frame movie of 64x65 pixels (one complete 64^3 chunk of the GEFF exporter), uint8 labels, ids around 255 / above 65535; geff / zarr / pandas trusted.", MC + " + operation bundle per distinct state", "DESIGN.md 4 C16")
 
+# wave 10 ("sessions": state carried from one call / object to the next)
+EXTRA = {
+    "C03": " Two objects alive in one process (B, A, B built again; all ordered pairs of short sessions) are held to the invariant as well.",
+    "C04": " Two objects alive in one process (B, A, B built again; all ordered pairs of short sessions) are held to the invariant as well.",
+    "C05": " Two objects alive in one process (B, A, B built again; all ordered pairs of short sessions) are held to the invariant as well.",
+    "C06": " Two objects alive in one process (B, A, B built again; all ordered pairs of short sessions) are held to the same comparison.",
+    "C09": " A second menu deletes an edge while IoU is switched off and restores it by undo after IoU is on again (length 5 / 7).",
+    "C11": " Delete-node is also called with its optional pixels argument (the node's own mask: accepted; a mask outside the array or for tracks without a label array: refused by the final sub-action).",
+    "C12": " A measurement column loaded through the features argument, and every ordered pair of imports that share the caller's name-map dict (and DataFrame) are enumerated too.",
+    "C13": " One CSVTracksBuilder object is also used for every ordered pair of small data sets (prepare + build twice).",
+    "C15": " Sessions on one object (export, edit the ancestry above / below the selection, export, undo, export) are enumerated for all forests <=3 / <=4 nodes x all one- and two-node selections x every edge deletion / forward edge addition.",
+    "C17": " The inference is also reached through two builder objects in a row on the same header, with the first inferred map edited in place by the caller in between.",
+    "C18": " Every ordered pair of (distance, scale) settings is also run as two calls in a row on the caller's same float array.",
+    "C19": " Detections outside the solution also carry a label that a solution node of another frame uses.",
+    "C20": " A menu with an always-refused stroke between accepted calls checks the count of the calls that follow a refusal.",
+}
+
 NOT_APPLICABLE = {}
 
 PENDING_REASON = "check not built yet in this round (planned, see DESIGN.md section 4); not claimed until its command exists"
@@ -120,7 +137,7 @@ def main():
             "evidence_file": f"/verif/evidence/{p}.json",
             "replay_cmd_template": "/venv/bin/python -m mc.replay {path}",
             "engine": c["engine"],
-            "level_claimed": {"category": "model_checking", "text": c["text"], "design_ref": c["design_ref"]},
+            "level_claimed": {"category": "model_checking", "text": c["text"] + EXTRA.get(p, ""), "design_ref": c["design_ref"]},
             "level_note": c["note"],
             "technique": c["technique"],
         })
